@@ -881,18 +881,21 @@ Section L3.
   Variable mw : N.
   Hypothesis L3 : ∀ L ts, valid_seq L ts → total_weight ts ≤ mw → body_ok L ts = true.
 
+  (** [capw]: a tenth of the pool's capacity (revalidate's parameter); [mw]: the block weight limit.
+      The repository's default capacity is ten blocks, i.e. [capw = mw]; nothing depends on that. *)
+  Variable capw : N.
   Theorem mined_block_accepted U L0 ops arb v2a :
     ids_inj U → Forall (op_in U) ops →
-    let s := nrun mw L0 ops in
+    let s := nrun capw L0 ops in
     a_ins arb = [] → a_outs arb = [] → (v2a = true → static_ok (l_h s.1) arb = true) → a_weight arb ≤ mw →
-    body_ok s.1 (mine_block mw v2a arb (pool_transactions s.1 mw s.2) (v2_pool_transactions s.1 mw s.2)) = true.
+    body_ok s.1 (mine_block mw v2a arb (pool_transactions s.1 capw s.2) (v2_pool_transactions s.1 capw s.2)) = true.
   Proof.
     intros Hinj Ho s Hai Hao Hst Hwa.
-    destruct (nrun_FInv mw U L0 ops Hinj Ho) as [HI _]. fold s in HI.
-    pose proof (revalidate_Inv s.1 mw s.2 HI) as HI'. destruct (revalidate_ms s.1 mw s.2) as [m Hm].
+    destruct (nrun_FInv capw U L0 ops Hinj Ho) as [HI _]. fold s in HI.
+    pose proof (revalidate_Inv s.1 capw s.2 HI) as HI'. destruct (revalidate_ms s.1 capw s.2) as [m Hm].
     unfold Inv in HI'. rewrite Hm in HI'. destruct HI' as (Hv&_).
     unfold pool_transactions, v2_pool_transactions.
-    set (t1 := txns (revalidate s.1 mw s.2)) in *. set (t2 := v2txns (revalidate s.1 mw s.2)) in *.
+    set (t1 := txns (revalidate s.1 capw s.2)) in *. set (t2 := v2txns (revalidate s.1 capw s.2)) in *.
     unfold mine_block, mine_block_gen. simpl. rewrite andb_true_r.
     destruct (take_w mw (if v2a then a_weight arb else 0) t1) as [b1 w1] eqn:E1.
     apply take_w_spec in E1 as ([r1 Hp1]&Hw1&Hc1).
